@@ -98,7 +98,8 @@ class C02(Monitor):
         retr = set(tr.post.mem)
         if tr.post.archived and tr.post.arch:
             retr |= set(tr.post.arch)
-        legit = kind in ('clear', 'clearks', 'redec', 'reclone', 'arch', 'newarch', 'aclear') or not tr.pre.archived
+        legit = kind in ('clear', 'clearks', 'redec', 'reclone', 'newarch', 'aclear') or not tr.pre.archived \
+            or (kind == 'arch' and tr.pre.archived != tr.post.archived)     # a toggle that really toggles
         if kind == 'newarch':
             # the corollary speaks about one lossless archive staying attached: replacing it restarts the at-most-once
             # accounting for everything the new archive does not hold (the per-call clause is still checked)
@@ -587,27 +588,65 @@ class Twin(Monitor):
     def __init__(self, cfg, prop):
         self.cfg = cfg
         self.prop = prop
-        self.seen = set()
+        self.tstate = None
 
     def state_key(self):
-        return tuple(sorted(self.seen))
+        # the second function's own state is part of the product state (the snapshot only covers the first function)
+        return self.tstate
+
+    def start(self, S):
+        self._capture(S)
+        return []
+
+    def _capture(self, S):
+        from ..engines.cachemc import snapshot
+        try:
+            self.tstate = repr(snap_full(snapshot(S.twin, S.tlog)))
+        except BaseException as e:
+            self.tstate = 'ERR %s' % type(e).__name__
 
     def step(self, S, tr):
-        if tr.ev[0] != 'tcall':
+        out = self._step(S, tr)
+        self._capture(S)
+        return out
+
+    def _step(self, S, tr):
+        if tr.ev[0] not in ('tcall', 'tlookup'):
             return []
         cfg = self.cfg
         out = []
-        if tr.exc is not None:
-            out.append((_sig(cfg, self.prop, 'twin-call-raises', exc=type(tr.exc).__name__), 'calling a second decorated function raised %r' % (tr.exc,)))
-        elif tr.ret != tr.extra['twin_expected']:
-            out.append((_sig(cfg, self.prop, 'twin-wrong-value'),
-                        'second decorated function returned %r for %r, it computes %r (cross-talk with the first function)' % (
-                            tr.ret, S.calls[tr.ev[1]], tr.extra['twin_expected'])))
-        if tr.ev[1] in self.seen and tr.extra.get('twin_evals') and cfg['alg'] == 'inf':
-            out.append((_sig(cfg, self.prop, 'twin-reevaluated'), 'second decorated function (inf_cache) evaluated a key twice'))
-        self.seen.add(tr.ev[1])
+        kind = tr.ev[0]
+        tkey = tr.extra.get('twin_key')
+        pre, post = tr.extra.get('twin_mem_pre', {}), tr.extra.get('twin_mem_post', {})
+        if kind == 'tcall':
+            if tr.exc is not None:
+                out.append((_sig(cfg, self.prop, 'twin-call-raises', exc=type(tr.exc).__name__), 'calling a second decorated function raised %r' % (tr.exc,)))
+            elif tr.ret != tr.extra['twin_expected']:
+                out.append((_sig(cfg, self.prop, 'twin-wrong-value'),
+                            'second decorated function returned %r for %r, it computes %r (cross-talk with the first function)' % (
+                                tr.ret, S.calls[tr.ev[1]], tr.extra['twin_expected'])))
+            # what the second function stores, it stores under its own key()
+            new = set(post) - set(pre)
+            if tr.exc is None and tr.extra.get('twin_evals') and new and new != {tkey}:
+                out.append((_sig(cfg, self.prop, 'twin-key-not-storage-key'),
+                            'second function stored under %r but its key() says %r' % (sorted(map(repr, new)), tkey)))
+            # capacity and reported bound of the second function are its own
+            info = tr.extra.get('twin_info', ())
+            ms = cfg.get('maxsize')
+            if len(info) == 5 and isinstance(ms, int) and ms > 0 and cfg['alg'] not in ('no', 'inf'):
+                want = ms + 3 if cfg['twin'] == 'constructed-first' else ms
+                if cfg['twin'] != 'same-decorator' and info[3] != want:
+                    out.append((_sig(cfg, self.prop, 'twin-maxsize-misreported'), 'second function reports maxsize %r, constructed with %r' % (info[3], want)))
+                if cfg['twin'] != 'same-decorator' and len(post) > max(want, len(pre)):
+                    out.append((_sig(cfg, self.prop, 'twin-over-capacity'), 'second function holds %d entries, its bound is %d' % (len(post), want)))
+        else:
+            resident = tkey in pre if not isinstance(tkey, tuple) or tkey[:1] != ('KEY-RAISED',) else False
+            if resident and (tr.exc is not None or tr.ret != pre[tkey]):
+                out.append((_sig(cfg, self.prop, 'twin-lookup-wrong'), 'lookup() on the second function gave %r / %r, resident value %r' % (tr.ret, tr.exc, pre[tkey])))
+            if not resident and not isinstance(tr.exc, KeyError):
+                out.append((_sig(cfg, self.prop, 'twin-lookup-wrong'), 'lookup() on the second function for a non-resident entry gave %r / %r' % (tr.ret, tr.exc)))
         a, b = snap_full(tr.pre), snap_full(tr.post)
-        if a != b or tr.logdelta:
+        if (a != b or tr.logdelta) and cfg['twin'] != 'same-decorator-explicit-cache':
             names = ('memory', 'archive', 'parked archive', 'archived flag', 'bookkeeping', 'stats', 'info')
             diff = [n for n, x, y in zip(names, a, b) if x != y] + (['evaluations'] if tr.logdelta else [])
             out.append((_sig(cfg, self.prop, 'twin-call-changes-first-function', what=','.join(diff)),
@@ -615,7 +654,7 @@ class Twin(Monitor):
         return out
 
     def nontrivial(self, S, tr):
-        return tr.ev[0] == 'tcall'
+        return tr.ev[0] in ('tcall', 'tlookup')
 
 
 MONITORS = {'C01': C01, 'C02': C02, 'C05': C05, 'C06': C06, 'C07': C07, 'C15': C15, 'C16': C16,
